@@ -216,8 +216,14 @@ def floordiv_term(a, b, it=None):
                 it.path.add_hyp(ax)
         # the quotient is named by a constant (z3's non-linear reasoning does not look inside function
         # applications that occur in products); it is tied to FDIV(a, b) so that quantified facts about FDIV apply
-        memo = it.path.__dict__.setdefault("_fdiv_memo", {})
+        from .core import _nonlinear
+
         a_s = z3.simplify(a)
+        if not _nonlinear(a_s):
+            F = FDIV(a, b)
+            it.path.assume(z3.And(b * F <= a, a < b * F + b))
+            return F
+        memo = it.path.__dict__.setdefault("_fdiv_memo", {})
         key = (a_s.get_id(), b.get_id())
         hit = memo.get(key)
         if hit is not None:
